@@ -1762,9 +1762,8 @@ func (self *LockDB) doTimeOut(lock *Lock, forcedExpried bool, removeWaited bool)
 	}
 
 	_ = lockProtocol.ProcessLockResultCommandLocked(lockCommand, protocol.RESULT_TIMEOUT, uint16(lockManager.locked), lock.locked, lockManager.GetLockData())
-	if lockLocked > 0 {
-		self.wakeUpWaitLocks(lockManager, nil)
-	} else {
+	self.wakeUpWaitLocks(lockManager, nil)
+	if lockLocked == 0 {
 		if timeoutFlag&protocol.TIMEOUT_FLAG_REVERSE_KEY_LOCK_WHEN_TIMEOUT != 0 {
 			lockCommand.TimeoutFlag = 0
 			lockKey := lockCommand.LockKey
@@ -2720,9 +2719,7 @@ func (self *LockDB) cancelWaitLock(lockManager *LockManager, command *protocol.L
 	_ = lockProtocol.ProcessLockResultCommandLocked(lockCommand, protocol.RESULT_UNLOCK_ERROR, uint16(lockManager.locked), waitLock.locked, lockManager.GetLockData())
 	_ = lockProtocol.FreeLockCommandLocked(lockCommand)
 
-	if lockLocked > 0 {
-		self.wakeUpWaitLocks(lockManager, nil)
-	}
+	self.wakeUpWaitLocks(lockManager, nil)
 }
 
 func (self *LockDB) addUnlockLockCommandToWaitLock(lockManager *LockManager, command *protocol.LockCommand, requestCommand *protocol.LockCommand, serverProtocol ServerProtocol) {
